@@ -1,5 +1,5 @@
 (* GENERATED on every run by tools/atomics2v from c2/state.go of the tree under check -- do not edit.
-   The atomic shape of the three mutators of the state word, and the state bit constants. *)
+   The atomic shape of the three mutators of the state word, the compound methods, and the state bit constants. *)
 From XMT Require Import Base.Prelude Model.Interleave.
 
 Definition gen_set : mutator := Mutator CasLoop [ALoad; ACas (EOr ECur EArg)].
@@ -10,6 +10,14 @@ Definition gen_unset_argbits : Z := 32.
 
 Definition gen_setlast : mutator := Mutator CasLoop [ALoad; ACas (EOr (EU32 (EShl (EU32 EArg) 16)) (EU32 (EU16 ECur)))].
 Definition gen_setlast_argbits : Z := 16.
+
+(* the compound methods as decision trees over their atomic calls (getters and e inlined) *)
+Definition gen_tag : prog := (PTest 4096 (PCall false 4096 (PRet true)) (PRet false)).
+Definition gen_channelcanstop : prog := (PTest 4 (PRet true) (PTest 8 (PRet true) (PTest 256 (PTest 1024 (PCall false 1024 (PTest 512 (PRet false) (PRet true))) (PTest 256 (PRet false) (PRet true))) (PRet true)))).
+Definition gen_channelcanstart : prog := (PTest 4 (PRet false) (PTest 256 (PRet true) (PTest 512 (PRet true) (PRet false)))).
+Definition gen_setchannel (e : bool) : prog :=
+  if e then (PTest 512 (PRet false) (PCall true 512 (PCall true 1024 (PRet true))))
+  else (PTest 256 (PTest 2048 (PCall false 512 (PCall true 1024 (PRet true))) (PTest 512 (PCall false 512 (PCall true 1024 (PRet true))) (PRet false))) (PTest 512 (PCall false 512 (PCall true 1024 (PRet true))) (PRet false))).
 
 (* constants of c2/state.go in declaration order *)
 Definition gen_stateCanRecv : Z := 1.
